@@ -478,7 +478,12 @@ pub fn abuild(spec: &Spec, order_seed: u64, permute: bool, pend_seed: u64, pend_
     let mut next_id = 0u16;
     let mut base = None;
     let mut st = PollStats::default();
-    let r = drive(abuild_rec(spec, &ctl, &mut next_id, &mut base), &mut st);
+    let r = drive(std::panic::AssertUnwindSafe(abuild_rec(spec, &ctl, &mut next_id, &mut base)).catch_unwind(), &mut st);
+    let r = match r {
+        Ok(Ok(x)) => Ok(x),
+        Ok(Err(_)) => Ok(Err("LIBRARY-PANIC while creating the initial contents through the async API".to_string())),
+        Err(e) => Err(e),
+    };
     let root = match r {
         Ok(Ok(r)) => r,
         Ok(Err(e)) | Err(e) => {
